@@ -178,6 +178,86 @@ Section Through.
         rewrite Hzid in Hzst. rewrite (Hon hd sg Hls Eseg) in Eblk; [discriminate|]. rewrite Hzst. discriminate.
   Qed.
 
+  (* the same without the hypothesis on the cursor block: either the cursor block is off the head's segment (and at or
+     above n: the answer is the cursor's own branch followed by blocks_from_cursor), or the snapshot as above *)
+  Lemma hub_through_shape_gen s V n cu burst :
+    VState U first kept s V ->
+    hub_through_cursor s n cu = BOk burst ->
+    exists hd sg,
+      last_sent s = Some hd /\ complete_segment (db s) (bref hd) = Some (sg, true) /\ good_seg sg /\
+      ((n <= rn (cu_blk cu) /\ block_in (ri (cu_blk cu)) sg = false /\ blocks_through_cursor s n cu = BOk burst) \/
+       exists pre post,
+      sg = pre ++ post /\ (forall y, In y pre -> snum y < n) /\ (forall y, In y post -> n <= snum y) /\
+      burst = map (snap_event s hd) post /\
+      (pre = [] -> post <> [] -> exists x0 r, post = x0 :: r /\ snum x0 = n) /\
+      (post <> [] \/ (block_in (ri (cu_blk cu)) sg = true /\ n <= rn (cu_blk cu)))).
+  Proof.
+    intros HV Hb.
+    destruct (vstate_facts U first kept U_id U_uniq U_up s V HV) as (_ & _ & W & hd & Hls & _).
+    unfold hub_through_cursor in Hb. destruct (rn (cu_blk cu) <? n) eqn:En.
+    - (* below the requested number: as from a block number *)
+      pose proof (c09_from_num_proof s n W) as Hspec. unfold from_num_spec in Hspec. rewrite Hb in Hspec.
+      destruct Hspec as (hd' & sg & pre & x & suf & (_ & Hls' & Eseg & Hsg & Hnx & Hpre & Hsuf) & Hevs & _).
+      rewrite Hls in Hls'. injection Hls' as <-.
+      destruct (vstate_segment U first kept U_id U_uniq U_up s V hd sg true HV Hls Eseg) as (Hgood & _ & _).
+      pose proof Hgood as [Hstd _ _ _].
+      assert (Hn : forall y, In y sg -> snum y = bnum (seg_blk y)).
+      { intros y Hy. rewrite Forall_forall in Hstd. exact (proj2 (Hstd y Hy)). }
+      exists hd, sg. split; [exact Hls|]. split; [exact Eseg|]. split; [exact Hgood|]. right. exists pre, (x :: suf). split; [exact Hsg|].
+      split; [|split; [|split; [exact Hevs|]]].
+      + intros y Hy. rewrite (Hn y); [apply Hpre; exact Hy | rewrite Hsg; apply in_or_app; left; exact Hy].
+      + intros y [<-|Hy].
+        * rewrite (Hn x); [lia | rewrite Hsg; apply in_or_app; right; left; reflexivity].
+        * rewrite (Hn y); [specialize (Hsuf y Hy); lia | rewrite Hsg; apply in_or_app; right; right; exact Hy].
+      + split; [|left; discriminate]. intros _ _. exists x, suf. split; [reflexivity|]. rewrite (Hn x); [exact Hnx | rewrite Hsg; apply in_or_app; right; left; reflexivity].
+    - (* through the cursor *)
+      pose proof Hb as Hb0. unfold blocks_through_cursor in Hb.
+      destruct (has_lib (db s)); [|discriminate]. cbn [negb] in Hb. rewrite Hls in Hb.
+      destruct (complete_segment (db s) (bref hd)) as [[sg [|]]|] eqn:Eseg; try discriminate.
+      2:{ destruct sg; discriminate. }
+      destruct sg as [|s0 sg0]; [discriminate|]. set (sg := s0 :: sg0) in *.
+      destruct (n <? snum s0) eqn:En0; [discriminate|]. apply N.ltb_ge in En0.
+      destruct (vstate_segment U first kept U_id U_uniq U_up s V hd sg true HV Hls Eseg) as (Hgood & _ & _).
+      destruct (block_in (ri (cu_blk cu)) sg) eqn:Eblk.
+      + (* the snapshot *)
+        injection Hb as <-. pose proof Hgood as [Hstd _ Hinc _].
+        assert (HS : StronglySorted (fun x y => snum x < snum y) sg).
+        { clear - Hstd Hinc. induction Hinc as [|x l HS IH Hall]; [constructor|].
+          inversion Hstd as [|? ? Hx Hstd']; subst. constructor; [auto|].
+          rewrite Forall_forall in *. intros y Hy. apply snum_lt_of; auto. }
+        destruct (mono_filter_suffix _ (fun x => negb (snum x <? n)) sg HS) as (pre & Esg & Hpre).
+        { intros x y Hxy Hx. apply negb_true_iff, N.ltb_ge in Hx. apply negb_true_iff, N.ltb_ge. lia. }
+        set (post := filter (fun x => negb (snum x <? n)) sg) in *.
+        exists hd, sg. split; [exact Hls|]. split; [exact Eseg|]. split; [exact Hgood|]. right. exists pre, post. split; [exact Esg|].
+        split; [|split; [|split]].
+        * intros y Hy. destruct (snum y <? n) eqn:E; [apply N.ltb_lt; exact E|]. exfalso.
+          assert (Hin : In y (filter (fun x => negb (snum x <? n)) pre)) by (apply filter_In; split; [exact Hy | rewrite E; reflexivity]).
+          rewrite Hpre in Hin. destruct Hin.
+        * intros y Hy. unfold post in Hy. apply filter_In in Hy as [_ Hy]. apply negb_true_iff, N.ltb_ge in Hy. exact Hy.
+        * assert (E : forall x, In x sg ->
+                    (if snum x <? n then [] else [wrap x (if snum x <=? rn (libref (db s)) then SNewIrr else SNew) (bref hd)
+                                                    (if snum x <? rn (libref (db s)) then seg_ref x else libref (db s)) None])
+                    = (if negb (snum x <? n) then [snap_event s hd x] else [])).
+          { intros x Hx. destruct (snum x <? n); [reflexivity|]. cbn [negb]. f_equal. apply wrap_snap.
+            rewrite Forall_forall in Hstd. apply Hstd. exact Hx. }
+          assert (Hfm : flat_map (fun x => if snum x <? n then [] else [wrap x (if snum x <=? rn (libref (db s)) then SNewIrr else SNew) (bref hd)
+                                                    (if snum x <? rn (libref (db s)) then seg_ref x else libref (db s)) None]) sg
+                        = map (snap_event s hd) post).
+          { rewrite (flat_map_ext_in _ _ sg E). apply flat_map_keep. }
+          exact Hfm.
+        * split; [|right; split; [exact Eblk | apply N.ltb_ge; exact En]].
+          intros Hp0 Hne. subst pre. cbn [app] in Esg. destruct post as [|x0 r] eqn:Ep; [contradiction|].
+          exists x0, r. split; [reflexivity|].
+          assert (Ex0 : x0 = s0) by (unfold sg in Esg; injection Esg as E _; symmetry; exact E).
+          assert (Hx0 : n <= snum x0).
+          { assert (Hin : In x0 post) by (rewrite Ep; left; reflexivity). unfold post in Hin. apply filter_In in Hin as [_ H].
+            apply negb_true_iff, N.ltb_ge in H. exact H. }
+          rewrite Ex0 in *. lia.
+      + (* the cursor block is not on the chain *)
+        exists hd, sg. split; [exact Hls|]. split; [exact Eseg|]. split; [exact Hgood|]. left.
+        split; [apply N.ltb_ge; exact En|]. split; [exact Eblk | exact Hb0].
+  Qed.
+
   (* a suffix x :: suf of the head's segment: blocks of the universe, parent-linked, ending with the head *)
   Lemma seg_post_facts s V hd sg pre x suf :
     VState U first kept s V -> last_sent s = Some hd -> complete_segment (db s) (bref hd) = Some (sg, true) ->
